@@ -42,6 +42,9 @@ def respCase (inp impl : String) : CaseOut :=
       -- an error only once the timeout has passed; C11.correlated: the value is the reply to that very request)
       -- sl: no reply was sent to that request (a Respond made while handling a senderless message answers nobody): timeout
       -- zt: a zero timeout has passed at once: an error, never a wait (C11.timeout_only_after_deadline covers "not before")
+      -- un: the Response whose id is taken by a user actor is refused as a duplicate; the user actor stays registered
+      -- (C10.add_dup_noop: a refused duplicate changes nothing)
+      else if op = "un" then (s, nreq, out ++ ["user-actor-kept"], tags ++ ["response-id-taken-by-a-user-actor"])
       else if op = "zt" then (s, nreq, out ++ ["timeout"], tags ++ ["zero-timeout"])
       -- cq: two Context.Request calls of one actor; the first times out, its late reply is a dead letter
       -- (C11.unregistered_then_deadletter), the second gets its own reply (C11.correlated, fresh_ids)
@@ -81,7 +84,8 @@ def respCase (inp impl : String) : CaseOut :=
           else if got.startsWith "dups=" then "two responses can draw the same id (cross-talk between concurrent requests)"
           else if got.startsWith "value" then "Result returned a value that was not the first reply to that very request"
           else "request/response protocol"
-        s!"FAIL:C11 {why}: op#{i} {ops.getD i "?"}: implementation [{got}] expected [{out.getD i "?"}]"
+        let lbl := if got.startsWith "user-actor" then "C10+C11" else "C11"
+        s!"FAIL:{lbl} {why}: op#{i} {ops.getD i "?"}: implementation [{got}] expected [{out.getD i "?"}]"
     { model := model, spec := spec, tags := tags.eraseDups, nontrivial := ops.length ≥ 3 }
 
 end Driver
